@@ -19,6 +19,9 @@ if owner == 'lemma': pass
 else:
     q, obls = E.generate(ex, owner if owner != '-' else None, fn, kind)
     obs += [(o, E.obligation_smt2(ex, o)) for o in obls]
+VAR = {}
+for i_, (o_, t_) in enumerate(obs):
+    if o_.focus is not None and (not pat or pat in o_.name): VAR[i_] = (E.obligation_smt2(ex, o_, focus=True), E.obligation_smt2(ex, o_, focus='nohint'))
 to = float(os.environ.get('TO', '10'))
 def run(i):
     o, t = obs[i]
@@ -31,8 +34,8 @@ def run(i):
         v2, dt2, _ = solve.run_cvc5(p, to); tries.append(('cvc5', v2, round(dt2, 1)))
         if v2 in ('sat', 'unsat'): v = v2
     if v not in ('sat', 'unsat') and o.focus is not None:
-        pf = f'{d}/{i}.focus.smt2'; open(pf, 'w').write(E.obligation_smt2(ex, o, focus=True))
-        pn = f'{d}/{i}.nohint.smt2'; open(pn, 'w').write(E.obligation_smt2(ex, o, focus='nohint'))
+        pf = f'{d}/{i}.focus.smt2'; open(pf, 'w').write(VAR[i][0])
+        pn = f'{d}/{i}.nohint.smt2'; open(pn, 'w').write(VAR[i][1])
         for nm, fn_, pp in (('z3/focus', solve.run_z3, pf), ('z3/nohint', solve.run_z3, pn), ('cvc5/focus', solve.run_cvc5, pf), ('cvc5/nohint', solve.run_cvc5, pn)):
             v3, dt3, _ = fn_(pp, to); tries.append((nm, v3, round(dt3, 1)))
             if v3 == 'unsat': v = v3; break
